@@ -879,7 +879,8 @@ func (c *DefaultCtx) JSON(data any, ctype ...string) error {
 	}
 	c.fasthttp.Response.SetBodyRaw(raw)
 	if len(ctype) > 0 {
-		c.fasthttp.Response.Header.SetContentType(ctype[0])
+		// handler-supplied: Set replaces CR/LF, SetContentType would store them verbatim
+		c.fasthttp.Response.Header.Set(HeaderContentType, ctype[0])
 	} else {
 		c.fasthttp.Response.Header.SetContentType(MIMEApplicationJSON)
 	}
@@ -897,7 +898,8 @@ func (c *DefaultCtx) CBOR(data any, ctype ...string) error {
 	}
 	c.fasthttp.Response.SetBodyRaw(raw)
 	if len(ctype) > 0 {
-		c.fasthttp.Response.Header.SetContentType(ctype[0])
+		// handler-supplied: Set replaces CR/LF, SetContentType would store them verbatim
+		c.fasthttp.Response.Header.Set(HeaderContentType, ctype[0])
 	} else {
 		c.fasthttp.Response.Header.SetContentType(MIMEApplicationCBOR)
 	}
@@ -1796,7 +1798,8 @@ func (c *DefaultCtx) String() string {
 // Type sets the Content-Type HTTP header to the MIME type specified by the file extension.
 func (c *DefaultCtx) Type(extension string, charset ...string) Ctx {
 	if len(charset) > 0 {
-		c.fasthttp.Response.Header.SetContentType(utils.GetMIME(extension) + "; charset=" + charset[0])
+		// handler-supplied charset: Set replaces CR/LF, SetContentType would store them verbatim
+		c.fasthttp.Response.Header.Set(HeaderContentType, utils.GetMIME(extension)+"; charset="+charset[0])
 	} else {
 		c.fasthttp.Response.Header.SetContentType(utils.GetMIME(extension))
 	}
